@@ -90,7 +90,8 @@ def accept_titan(draw):
 
 
 CORRUPTIONS = ["scheme-other", "no-slashes", "no-scheme", "empty-host", "userinfo", "fragment", "bad-utf8",
-               "too-long-crlf", "too-long-nocrlf", "titan-nosize", "titan-badsize", "titan-negsize", "titan-noparams"]
+               "too-long-crlf", "too-long-nocrlf", "titan-nosize", "titan-badsize", "titan-negsize", "titan-noparams",
+               "titan-userinfo", "titan-fragment"]
 
 
 @st.composite
@@ -107,6 +108,12 @@ def reject_line(draw):
                 line = u["url"] + ";size=x"
         elif c == "titan-negsize":
             line = u["url"] + ";size=-" + str(draw(st.integers(1, 10**6)))
+        elif c == "titan-userinfo":
+            rest = u["url"][len("titan://"):]
+            ui = draw(st.sampled_from(["user", "user:pw", "user;x", "u;size=9", "a;b:c"]))
+            line = "titan://" + ui + "@" + rest + ";size=3"
+        elif c == "titan-fragment":
+            line = u["url"] + draw(st.sampled_from([";size=3#f", ";size=3;mime=a#f", "#f;size=3", ";size=3;token=t#frag"]))
         else:
             line = u["url"]
         raw = line.encode()
@@ -153,7 +160,7 @@ def reject_line(draw):
             return draw(reject_line())
     followup = draw(st.sampled_from(["", "", "gemini://example.org/second\r\n", "titan://example.org/late.gmi;size=4\r\nDATA"]))
     return {"cls": "reject", "kind": "titan" if c.startswith("titan") else "gemini", "line": b2s(raw), "crlf": crlf,
-            "content": "", "corruption": c, "labels": [c] + (["followup"] if followup else []), "uploads": uploads, "raw": True,
+            "content": "abc" if c in ("titan-userinfo", "titan-fragment") else "", "corruption": c, "labels": [c] + (["followup"] if followup else []), "uploads": uploads, "raw": True,
             "followup": followup}
 
 
